@@ -547,7 +547,7 @@ func c07Scenarios(rec *vcommon.Rec) []*c07Scenario {
 	if rec.Thorough() {
 		codecs := []string{"Base32", "Base64", "Base64u", "Base85", "Base91", "Base128"}
 		downs := []string{"Base32", "Base64", "Base64u", "Base85", "Base91", "Base128", "Raw"}
-		qts := []dnsmessage.Type{util.QueryTypeNull, util.QueryTypeTxt, util.QueryTypeCname, util.QueryTypeMx, util.QueryTypeSrv, util.QueryTypeA, util.QueryTypeAAAA}
+		qts := []dnsmessage.Type{util.QueryTypeNull, util.QueryTypePrivate, util.QueryTypeTxt, util.QueryTypeCname, util.QueryTypeMx}
 		scripts := []string{"random", "everyk", "wraploss", "dupstorm", "replay", "bursts", "transparent"}
 		for i := 0; i < 180; i++ {
 			sc := c07Scenario{Script: scripts[i%len(scripts)], StartC2S: pick(), StartS2C: pick()}
@@ -578,10 +578,17 @@ func c07Scenarios(rec *vcommon.Rec) []*c07Scenario {
 				sc.BytesC2S, sc.BytesS2C = 3000, 3000
 			}
 			if i%3 == 0 {
-				sc.Up, sc.Down = codecs[rng.Intn(len(codecs))], downs[rng.Intn(len(downs))]
+				// only parameter combinations the negotiation can settle on (C11's evidence lists them): the
+				// binary-safe record types take every downstream codec, the text record types only the
+				// codecs whose alphabet survives DNS presentation format (the others are C10 findings),
+				// and A/AAAA/SRV cannot carry the handshake at all
+				sc.Up = codecs[rng.Intn(len(codecs))]
 				sc.QType = uint16(qts[rng.Intn(len(qts))])
-				if sc.Down == "Raw" {
-					sc.QType = uint16(util.QueryTypeNull)
+				switch dnsmessage.Type(sc.QType) {
+				case util.QueryTypeNull, util.QueryTypePrivate:
+					sc.Down = downs[rng.Intn(len(downs))]
+				default:
+					sc.Down = []string{"Base32", "Base64", "Base64u"}[rng.Intn(3)]
 				}
 			}
 			if i%20 == 19 {
